@@ -1,12 +1,12 @@
 #!/bin/bash
 # usage: tools/run_all.sh [quick|thorough] [ids...]   runs the registered checks one after another
 tier=${1:-quick}; shift
-ids=${@:-C01 C02 C03 C04 C08 C10 C11 C12 C13 C14 C15 C16 C17 C18 C20}
+ids=${@:-C01 C02 C03 C04 C05 C08 C10 C11 C12 C13 C14 C15 C16 C17 C18 C20}
 cd "$(dirname "$0")/.."
 rc=0
 for id in $ids; do
   s=$(date +%s)
-  out=$(./checks/run.sh $id $tier 2>&1); code=$?
+  out=$(timeout ${RUN_TIMEOUT:-86400} ./checks/run.sh $id $tier 2>&1); code=$?
   e=$(( $(date +%s) - s ))
   echo "== $id $tier exit=$code ${e}s"
   echo "$out" | grep -E "^(VIOLATION|INCONCLUSIVE|KNOWN-FINDING|STALE-FINDING|OK)" | cut -c1-160
